@@ -57,6 +57,22 @@ CLAIMED = {
          "Necessary conditions for 'no two simultaneously live registers share a machine register'; the colouring/spilling algorithm is not decided.",
          "Trusted: syn; rustc MIR; petgraph; spec/isa.txt written from the FuelVM ISA and fuel-asm/fuel-vm 0.66.4.",
          "DESIGN.md §3 C08"),
+ "C09": ("E-SW+E-TAB", "other", "writer/reader agreement over the std codec.sw impls (Sway tokenizer: impl sets, component order per tuple arity, loop direction, length-prefix order) and over the compiler's derive generators (syn: iteration order, tag-before-payload)",
+         "Decides only that the decoder reads what the encoder wrote, in the same order and number: AbiEncode and AbiDecode are implemented for the "
+         "same types; for every tuple arity the encoder appends self.0..self.n-1 in index order and the decoder builds the components in parameter "
+         "order; arrays are walked ascending in both directions; str/raw_slice are read as u64 length then bytes; derived struct impls walk the fields "
+         "in declaration order both ways; derived enum impls write and read the same u64 `tag` before the payload and cover every variant. Byte-level "
+         "canonicity against the Fuel ABI and the JSON ABI contents are not decided.",
+         "Trusted: rules/lib/sw.py tokenizer; syn; BufferReader / __encode_buffer_append primitives.",
+         "DESIGN.md §3 C09"),
+ "C10": ("E-SW+E-TAB", "other", "SPEC of each primitive impl's trivial flags against a memory-size / encoded-size / invalid-pattern table; COVER of composite predicates (layout-identity test AND every component); derive-generator rules (syn); validity-check rules on bool / enum-tag decoding",
+         "Decides the classification tables behind the fast path: each primitive's is_encode_trivial is (memory size == encoded size) and its "
+         "is_decode_trivial additionally requires that every bit pattern is a value (bool is not); every tuple predicate conjoins the layout-identity "
+         "test with the predicate of every type parameter and arrays delegate to their element; the compiler's derived struct/enum impls emit the same "
+         "conjunction over every field/variant and derived enums are never trivially decodable; a bool byte other than 0/1 and an unknown enum tag "
+         "revert. That __runtime_mem_id == __encoding_mem_id is itself right for every nesting is not decided.",
+         "Trusted: rules/lib/sw.py tokenizer; syn; spec/abi_sizes.txt; the two mem-id intrinsics.",
+         "DESIGN.md §3 C10"),
  "C12": ("E-MIR+E-TAB+E-SW", "other", "who-may-call and argument-provenance rules on the storage key derivation (MIR), CFG order of hasher inputs, constant/separator SPEC (syn), Sway std-lib domain constant check, padding-arithmetic anti-pattern rule",
          "Decides: the emitted storage slots and the generated storage accesses take a field's key from the same function with the same inputs; "
          "the implicit key is sha256(domain byte 0 ++ `storage[::ns]*.field`) with the domain fed first and an explicit `in` key used verbatim; "
